@@ -22,6 +22,8 @@ pub fn on_arc(from: f64, to: f64, x: f64, eps: f64) -> Option<bool> {
 
 pub struct Case { pub ctor: u8, pub from: [f64; 6], pub to: [f64; 6], pub x: [f64; 6] }
 
+const INIT_FROM: [f64; 6] = [0.0, 0.1, -0.2, 0.3, 1.0, 2.0];
+const INIT_TO: [f64; 6] = [1.0, 1.0, 0.5, -0.5, 1.0, 7.0];
 pub fn build(c: &Case) -> Constraints {
     match c.ctor {
         0 => Constraints::new(c.from, c.to, BY_PREV),
@@ -31,7 +33,7 @@ pub fn build(c: &Case) -> Constraints {
             Constraints::from_degrees(r, BY_PREV)
         }
         _ => {
-            let mut k = Constraints::new([0.0, 0.1, -0.2, 0.3, 1.0, 2.0], [1.0, 1.0, 0.5, -0.5, 1.0, 7.0], BY_PREV);
+            let mut k = Constraints::new(INIT_FROM, INIT_TO, BY_PREV);
             k.update_range(c.from, c.to);
             k
         }
@@ -67,6 +69,10 @@ pub fn gen_case(rng: &mut Rng, idx: u64) -> Case {
         let keep = rng.below(6) as usize;
         for i in 0..6 { if i != keep && rng.below(4) != 0 { from[i] = if ctor == 1 { -170.0 } else { -3.0 }; to[i] = if ctor == 1 { 170.0 } else { 3.0 }; x[i] = rng.range(-2.0, 2.0); } }
     }
+    // update_range that moves only one end of a joint's range (the other end keeps the value the constraints were built with)
+    if ctor == 2 {
+        for i in 0..6 { match rng.below(6) { 0 => from[i] = INIT_FROM[i], 1 => to[i] = INIT_TO[i], _ => {} } }
+    }
     Case { ctor, from, to, x }
 }
 
@@ -74,11 +80,12 @@ pub fn run_case(c: &Case, idx: u64) -> String {
     let k = build(c);
     let compliant = k.compliant(&c.x);
     let filt = k.filter(&vec![c.x, k.centers]);
-    // direct oracle on the radians the constructor saw
+    // direct oracle on the limits the CALLER gave (degrees converted here for the degree constructor), not on what the object stored
     let mut verdict: Option<bool> = Some(true);
     let mut per = Vec::new();
     for i in 0..6 {
-        let v = on_arc(k.from[i], k.to[i], c.x[i], 1e-9);
+        let (lf, lt) = if c.ctor == 1 { (c.from[i].to_radians(), c.to[i].to_radians()) } else { (c.from[i], c.to[i]) };
+        let v = on_arc(lf, lt, c.x[i], 1e-9);
         per.push(match v { Some(true) => 1, Some(false) => 0, None => 2 });
         verdict = match (verdict, v) { (_, Some(false)) => Some(false), (Some(false), _) => Some(false), (None, _) | (_, None) => None, _ => Some(true) };
     }
